@@ -2,6 +2,7 @@ package dnsmsg
 
 import (
 	"net"
+	"slices"
 
 	"github.com/AdguardTeam/golibs/syncutil"
 	"github.com/miekg/dns"
@@ -87,13 +88,29 @@ func (c *optCloner) clone(rr *dns.OPT) (clone *dns.OPT, full bool) {
 			optClone = opt
 		// TODO(a.garipov): Add more if necessary.
 		default:
-			return dns.Copy(rr).(*dns.OPT), false
+			return copyOPT(rr), false
 		}
 
 		clone.Option = append(clone.Option, optClone)
 	}
 
 	return clone, true
+}
+
+// copyOPT returns a deep copy of rr made with [dns.Copy].  Unlike [dns.Copy],
+// it also copies the addresses of the subnet options, which [dns.Copy] leaves
+// shared between rr and the copy.  Since [optCloner.put] recycles subnet
+// options and [optCloner.clone] overwrites their addresses in place, a shared
+// address would let a later clone alter a message that is still in use.
+func copyOPT(rr *dns.OPT) (clone *dns.OPT) {
+	clone = dns.Copy(rr).(*dns.OPT)
+	for _, opt := range clone.Option {
+		if subnet, ok := opt.(*dns.EDNS0_SUBNET); ok {
+			subnet.Address = slices.Clone(subnet.Address)
+		}
+	}
+
+	return clone
 }
 
 // put returns structures from rr into c's pools.
